@@ -19,10 +19,12 @@ def _box(lv):
         return None
     return [dict(zip([v.id for v in lv], vals)) for vals in itertools.product(*ranges)]
 
+_FORCE_FORM = [None]
+
 def _form(val, k, puan):
-    """the three accepted value forms, rotated"""
+    """the three accepted value forms, rotated (a case may pin the form: case["form"])"""
     import numpy
-    k = k % 7
+    k = k % 7 if _FORCE_FORM[0] is None else _FORCE_FORM[0]
     if k == 0: return int(val)
     if k == 1: return (int(val), int(val))
     if k == 2: return puan.Bounds(int(val), int(val))
@@ -36,6 +38,7 @@ def _valid(m):
     return (not proj.is_var(m)) and m.errors() == []
 
 def _mk(case):
+    _FORCE_FORM[0] = case.get("form")
     return B.build(case["recipe"], leaf_str=case.get("leaf_str", False), via=case.get("via", "ctor"), style=case.get("style", 0))
 
 def _compounds(m):
